@@ -327,27 +327,33 @@ class _EvaluatorCompiler:
         else:
             return False
 
+    def _evaluate_in(self, negate, eval_left, eval_right):
+        def evaluate(obj):
+            left_val = eval_left(obj)
+            right_val = eval_right(obj)
+            if left_val is _EXPIRED_OBJECT or right_val is _EXPIRED_OBJECT:
+                return _EXPIRED_OBJECT
+            elif right_val is None:
+                return None
+            elif not right_val:
+                # IN against the empty list is FALSE even for a NULL
+                # left side
+                result = False
+            elif left_val is None:
+                result = None
+            else:
+                result = self._sql_in(left_val, right_val)
+            return None if result is None else result is not negate
+
+        return evaluate
+
     def visit_in_op_binary_op(self, operator, eval_left, eval_right, clause):
-        return self._straight_evaluate(
-            self._sql_in,
-            eval_left,
-            eval_right,
-            clause,
-        )
+        return self._evaluate_in(False, eval_left, eval_right)
 
     def visit_not_in_op_binary_op(
         self, operator, eval_left, eval_right, clause
     ):
-        def sql_not_in(a, b):
-            result = self._sql_in(a, b)
-            return None if result is None else not result
-
-        return self._straight_evaluate(
-            sql_not_in,
-            eval_left,
-            eval_right,
-            clause,
-        )
+        return self._evaluate_in(True, eval_left, eval_right)
 
     def visit_concat_op_binary_op(
         self, operator, eval_left, eval_right, clause
